@@ -129,7 +129,9 @@ def judge(op, impl, model, spec):
                 pending = None
             else:
                 good = False
-        elif a == "d":
+        elif a == "d" or a[0] == "c":
+            # d: the pending future is dropped.  c<i> / cs: write(..) / sync() is called and the future dropped without a single poll;
+            # futures are lazy, so nothing has been encoded, armed or sent (a future pending before is gone: the call needs &mut self)
             good &= t == "-"
             pending = None
     if disciplined:
@@ -315,6 +317,34 @@ def setmax_ops(rng, tier):
     return ops
 
 
+def unpolled_ops(rng, tier):
+    """disciplined walks with write / sync futures that are created and dropped without a poll in front of some of the calls and at the end"""
+    ops = []
+    base = sched_ops(tier)[::7] + random_ops(rng, "quick")
+    for op in base:
+        if "#k=sched" not in op:
+            continue
+        w = op.split(" ")
+        acts = w[4].split(",") if w[4] != "-" else []
+        n = len(F.parse_vals(w[2]))
+        if n == 0:
+            continue
+        out = []
+        for a in acts:
+            if a[0] in "ws" and rng.random() < 0.4:
+                out += [rng.choice([f"c{rng.randrange(n)}", "cs"]) for _ in range(rng.choice([1, 1, 2]))]
+            out.append(a)
+        out.append(f"c{rng.randrange(n)}")
+        if "#complete=1" in op:
+            out.append("s")
+        w[4] = ",".join(out)
+        ops.append(" ".join(w))
+    for v in (("u", 5), ("b", bytes(40)), ("e", None), ("b", bytes(200))):           # a first call that is never polled, then nothing / a sync / another value
+        for tailacts in ("", ",s", ",w1,s", ",cs,w1", ",c1,c0,s"):
+            ops.append(f"awrite 100 {F.vals_tok([v, ('u', 7)])} {F.script_tok([3, 3, 3, 3, 3, 3])} c0{tailacts} #k=sched")
+    return ops
+
+
 def flush_ops(ops, rng, every=9):
     """every 9th scenario once more over a sink whose poll_flush misbehaves (write / sync never flush, so nothing may change)"""
     out = []
@@ -351,6 +381,8 @@ def streams(rng, tier):
            "values whose payload is 524285..524289 bytes through a writer whose limit was never set: 524288 is the last one accepted"),
         mk("big-frames", big_ops(rng, tier), "values of 65537..100005 bytes through one writer in 20 KB..1 MB pieces with Pendings, error events and drop-then-sync; oracle: exact frames, lengths"),
         mk("set-max-len", setmax_ops(rng, tier), "write accepted, part of the frame out, Pending, future dropped, set_max_len(smaller), sync: the frame in flight is completed unchanged; the new limit applies to later values"),
+        mk("futures-never-polled", unpolled_ops(rng, tier), "write(..) / sync() called and the future dropped before its first poll, in front of other calls and at the end: "
+           "nothing is encoded, armed or sent by a future that was never polled; oracle: exact frames, lengths, Encode runs"),
         mk("long-streams", long_ops(rng, tier), "31..300 values through one writer under chunking, Pendings, error events and drop-then-sync; oracle: exact frames, lengths"),
     ]
 
